@@ -62,6 +62,19 @@ def run(R):
     for opts in ([], [b"--read-only=warn"], [b"--read-only=ignore"]):
         tree = box.Tree({b"dir": ("d", 0o500), b"f": ("l", b"dir"), b"p.diff": ("f", text_u, 0o644)})
         jobs.append(dict(cut=R.cut, tree=tree, argv=opts + [b"-i", b"p.diff"])); meta.append(("refuse-link", 0o500, opts, "symlink to directory", 0, None))
+    # symbolic link targets of every kind (to a file, dangling, to a directory) x patches that change, create or remove f (also the git
+    # patches which are about a link): the link stays a link, what it points to keeps bytes, mode and time stamps, nothing appears where a
+    # dangling link points to
+    creating = b"--- /dev/null\n+++ f\n@@ -0,0 +1,2 @@\n+x\n+y\n"
+    git_new = b"diff --git a/f b/f\nnew file mode 100644\n--- /dev/null\n+++ b/f\n@@ -0,0 +1,2 @@\n+x\n+y\n"
+    git_dellink = b"diff --git a/f b/f\ndeleted file mode 120000\n--- a/f\n+++ /dev/null\n@@ -1 +0,0 @@\n-dest\n\\ No newline at end of file\n"
+    git_newlink = b"diff --git a/f b/f\nnew file mode 120000\n--- /dev/null\n+++ b/f\n@@ -0,0 +1 @@\n+dest\n\\ No newline at end of file\n"
+    for lk, extra in (("to a file", {b"dest": ("f", gen.render(a, "keep"), 0o640)}), ("dangling", {}), ("to a directory", {b"dest": ("d", 0o750)})):
+        for pk, text, pre_ in (("change", text_u, []), ("create", creating, []), ("git create", git_new, [b"-p1"]), ("git delete link", git_dellink, [b"-p1"]),
+                               ("git create link -R", git_newlink, [b"-p1", b"-R"])):
+            for opts in ([b"-f"], [b"-f", b"-b"], [b"-f", b"--dry-run"], [b"-f", b"--no-backup-if-mismatch"]):
+                tree = box.Tree({b"f": ("l", b"dest"), b"p.diff": ("f", text, 0o644), **extra})
+                jobs.append(dict(cut=R.cut, tree=tree, argv=opts + pre_ + [b"-i", b"p.diff"])); meta.append(("refuse-symlink", 0, opts + pre_, f"link {lk}, {pk} patch", 0, None))
     # aborts after the read-only check: Prereq text missing under --batch, a hunk that can not be parsed, a second section that is corrupt
     pre = b"Prereq: version-9\n" + text_u
     broken = text_u.rsplit(b"\n", 2)[0] + b"\n"            # the last line of the hunk is missing: 'unexpected end' style abort
@@ -85,7 +98,7 @@ def run(R):
         dist[k] = dist.get(k, 0) + 1
         f0, f1 = r.before.get(b"f"), r.after.get(b"f")
         if what == "mode":
-            readonly = not (m & 0o222)
+            readonly = not (m & 0o200)     # read-only: the owner may not write (D94; any of the three write bits before)
             fail = readonly and b"--read-only=fail" in opts
             if fail:
                 if f1[:3] != f0[:3] or r.exit == 0:
@@ -109,6 +122,11 @@ def run(R):
         elif what == "git-move":
             if r.exit != 0 or b"g" not in r.after or r.after[b"g"][2] != newmode:
                 R.oracle_fail(f"git {opts[0].decode()} of a file with mode {oct(m)}: the new file has mode {oct(r.after[b'g'][2]) if b'g' in r.after else 'none (missing)'} (exit {r.exit})", data)
+        elif what == "refuse-symlink":
+            d0, d1 = r.before.get(b"dest"), r.after.get(b"dest")
+            if r.exit == 0 or f1 != f0 or d1 != d0 or set(r.after) - set(r.before) - {b"f.rej"}:
+                R.oracle_fail(f"a symbolic link ({kind}) was not refused cleanly: exit {r.exit}, link {'kept' if f1 == f0 else 'changed'}, what it points to "
+                              f"{'untouched' if d1 == d0 else 'touched or created'}, new paths {sorted(set(r.after) - set(r.before))}", data)
         elif what == "refuse-link":
             d0, d1 = r.before.get(b"dir"), r.after.get(b"dir")
             if r.exit == 0 or f1[:2] != f0[:2] or d1[:3] != d0[:3]:
